@@ -252,6 +252,69 @@ Example C16_closed_loop_nonvacuous :
   map (fun k => vk_state (vs_st (snd (cl_run 8 (firstn k cl_sched))))) (seq 0 13) = [0; 1; 2; 2; 2; 3; 0; 0; 1; 2; 2; 3; 0].
 Proof. exact cl_example. Qed.
 
+(* ================================================================== port direction mapping of the stream interface (session 5)
+   Logic.addInterfaceSource / addInterfaceSink (py4hw/base.py 102-171) applied to an interface such as AXI4StreamInterface
+   (py4hw/logic/bus/axi.py 144-175: tvalid, tdata, tlast, tkeep, ... source->sink; tready sink->source), in the construction model
+   of C11 (Model/Build.v) with the two calls as derived lists of addOut / addIn (Model/BuildIface.v; lemmas in Proofs/C11/Interface.v).
+   irun xs = the netlist after ANY calls xs; prow s q = (class, block, name, wire) of port q; port_name prefix signal = '<prefix>_<signal>'
+   (the bare signal name for the empty prefix, which is what Axi2Reg / Reg2Axi pass).  Hypotheses: the two calls returned. *)
+From V Require Import Model.Build Model.BuildIface Proofs.C11.Interface.
+
+(* the two calls create exactly these ports, in this order: source side  OUT per sourceToSink signal then IN per sinkToSource signal,
+   sink side  IN per sourceToSink signal then OUT per sinkToSource signal  (source_rows / sink_rows); nothing else is created *)
+Theorem C16_interface_ports_exact : forall xs A B preA preB i s1 s2,
+  istep (irun xs) (AddIfaceSource A preA i) = (s1, Ok) ->
+  istep s1 (AddIfaceSink B preB i) = (s2, Ok) ->
+  (nport s2 = nport (irun xs) + 2 * (length (sourceToSink i) + length (sinkToSource i)) /\
+   map (prow s2) (seq (nport (irun xs)) (nport s2 - nport (irun xs))) = source_rows A preA i ++ sink_rows B preB i /\
+   (forall q, q < nport (irun xs) -> prow s2 q = prow (irun xs) q) /\
+   nobj s2 = nobj (irun xs) /\ nwire s2 = nwire (irun xs))%nat.
+Proof. exact interface_ports_exact. Qed.
+(* duality: every sourceToSink signal (tvalid, tdata, ...) is an OUT port of the source block A and an IN port of the sink block B
+   ON THE SAME WIRE; every sinkToSource signal (tready) is an IN port of A and an OUT port of B on the same wire; every port the two
+   calls created is one of these; the earlier ports keep class, block, name and wire and are in exactly the port lists they were in;
+   no InOut port appears *)
+Theorem C16_interface_directions_dual : forall xs A B preA preB i s1 s2,
+  istep (irun xs) (AddIfaceSource A preA i) = (s1, Ok) ->
+  istep s1 (AddIfaceSink B preB i) = (s2, Ok) ->
+  let s := irun xs in
+  ((forall sg w, In (sg, w) (sourceToSink i) ->
+     (exists qa, nport s <= qa < nport s2 /\ In qa (oout s2 A) /\ prow s2 qa = (POut, A, port_name preA sg, w)) /\
+     (exists qb, nport s <= qb < nport s2 /\ In qb (oin s2 B) /\ prow s2 qb = (PIn, B, port_name preB sg, w))) /\
+  (forall sg w, In (sg, w) (sinkToSource i) ->
+     (exists qa, nport s <= qa < nport s2 /\ In qa (oin s2 A) /\ prow s2 qa = (PIn, A, port_name preA sg, w)) /\
+     (exists qb, nport s <= qb < nport s2 /\ In qb (oout s2 B) /\ prow s2 qb = (POut, B, port_name preB sg, w))) /\
+  (forall q, nport s <= q < nport s2 -> In (prow s2 q) (source_rows A preA i ++ sink_rows B preB i)) /\
+  (forall q, q < nport s -> prow s2 q = prow s q) /\
+  (forall o q, o < nobj s -> q < nport s ->
+     (In q (oin s2 o) <-> In q (oin s o)) /\ (In q (oout s2 o) <-> In q (oout s o)) /\ (In q (oinout s2 o) <-> In q (oinout s o))) /\
+  (forall o q, In q (oinout s2 o) -> o < nobj s -> q < nport s))%nat.
+Proof. exact interface_directions_dual. Qed.
+(* when A and B are primitive blocks the direction is also what the WIRES record: A's out-port is the registered source of every
+   sourceToSink wire, B's out-port of every sinkToSource wire (C11_interface_source_call_registers / _sink_call_registers), and a second
+   source or sink is rejected (C11_interface_second_source_rejected, Properties/C11.v) *)
+
+(* the port-name scheme separates signals, and (for name codes of the harness: 0 <= signal < BUNDLE) prefixes *)
+Theorem C16_interface_port_names_distinct :
+  (forall pre sg sg', port_name pre sg = port_name pre sg' -> sg = sg') /\
+  (forall a a' sg sg', 0 <= sg < BUNDLE -> 0 <= sg' < BUNDLE -> port_name (Some a) sg = port_name (Some a') sg' -> a = a' /\ sg = sg').
+Proof. exact port_names_distinct. Qed.
+
+(* an AXI4-Stream-like interface (tvalid = signal 0 on wire 0, tready = signal 1 on wire 1, tdata = signal 2 on wire 2): producer block 1
+   with prefix 'n5', consumer block 2 with the empty prefix.  Both calls return; the six ports; who drives and who reads each wire *)
+Example C16_interface_axis_example :
+  (let s := irun axis_pre in
+  let s2 := irun (axis_pre ++ axis_calls) in
+  istep s (AddIfaceSource 1 (Some 5%Z) axis) = (iexec s (AddIfaceSource 1 (Some 5%Z) axis), Ok) /\
+  istep (iexec s (AddIfaceSource 1 (Some 5%Z) axis)) (AddIfaceSink 2 None axis) = (s2, Ok) /\
+  nport s = 0 /\
+  map (prow s2) (seq 0 (nport s2)) =
+    [(POut, 1, 6000%Z, 0); (POut, 1, 6002%Z, 2); (PIn, 1, 6001%Z, 1);
+     (PIn, 2, 0%Z, 0); (PIn, 2, 2%Z, 2); (POut, 2, 1%Z, 1)] /\
+  oout s2 1 = [0; 1] /\ oin s2 1 = [2] /\ oin s2 2 = [3; 4] /\ oout s2 2 = [5] /\
+  map (wsource s2) [0; 1; 2] = [Some 0; Some 5; Some 1] /\ map (wsinks s2) [0; 1; 2] = [[3]; [2]; [4]])%nat.
+Proof. vm_compute. repeat split; reflexivity. Qed.
+
 Print Assumptions C16_a2r_refines_reference.
 Print Assumptions C16_a2r_holds_most_recent_beat.
 Print Assumptions C16_a2r_ready_iff_active.
@@ -283,3 +346,6 @@ Print Assumptions C16_r2a_accepted_beat_withdrawn_closed_loop.
 Print Assumptions C16_r2a_no_duplicate_closed_loop.
 Print Assumptions C16_r2a_exactly_once_closed_loop.
 Print Assumptions C16_closed_loop_reload_in_loaded_refuted.
+Print Assumptions C16_interface_ports_exact.
+Print Assumptions C16_interface_directions_dual.
+Print Assumptions C16_interface_port_names_distinct.
